@@ -247,14 +247,20 @@ func unmarshalData(data []byte) (map[string]any, error) {
 }
 
 // decode decodes the configuration map into a configDefinition.
-func decode(cm map[string]any) (*definition, error) {
-	c := new(definition)
+func decode(cm map[string]any) (c *definition, err error) {
+	// mapstructure panics while reporting an unused key that is not a string.
+	defer func() {
+		if r := recover(); r != nil {
+			err = fmt.Errorf("invalid definition: %v", r)
+		}
+	}()
+	c = new(definition)
 	md, _ := mapstructure.NewDecoder(&mapstructure.DecoderConfig{
 		ErrorUnused: true,
 		Result:      c,
 		TagName:     "",
 	})
-	err := md.Decode(cm)
+	err = md.Decode(cm)
 
 	return c, err
 }
